@@ -135,6 +135,11 @@ func Main(t *testing.T, e Engine) {
 		os.Exit(2)
 	}
 	f.Close()
+	if RaceEnabled {
+		// the testing package fails a test during which the detector reported
+		// anything; the reports are the engine's data (C40), not a test failure
+		os.Exit(0)
+	}
 }
 
 func hasSig(out *Outcome, prop, sig string) bool {
